@@ -16,7 +16,9 @@ MANIFEST_NOTE = ("Trusted: Lean kernel (+propext/Classical.choice/Quot.sound), t
                  "model (differential runs only), Lean's Float/Float32 = IEEE binary64/32 for + - * / < == fabs, g++/libm/ASan/UBSan. "
                  "cmath functions are uninterpreted in the model (their table travels on the op line); NaN payload/sign is canonicalised; "
                  "for solve/invert the property is read as: the SIMD call throws FMatrixError iff the scalar call throws for some lane, "
-                 "otherwise all lanes agree bitwise. Needs fixes/C09_*.patch (three genuine defects) applied.")
+                 "otherwise all lanes agree bitwise. Three genuine defects found by this check were repaired in /repo (fixes/C09_*.patch = "
+                 "commits 4bc4257, 463b852, 1d9eacd); the model describes the repaired code. -O0 is used for the harness because "
+                 "~30 vector types x all operators + 24 matrix types take > 2 min to compile at -O1 with both sanitizers.")
 TECHNIQUE = "Lean 4 proof over translated loop shapes + SimdLike-generic LU model; translator for operator tables; differential correspondence with per-lane scalar oracle (bitwise)"
 TRANSLATORS = [tr_c09.translate]
 HARNESS = dict(
